@@ -43,6 +43,7 @@ type Prog struct {
 	bind        map[*ssa.Parameter]ssa.Value // parameters of helpers on the call chain a path search is following
 	cutMatchers map[uintptr]*cutInfo
 	flowCells   bool // origins reads local cells flow-sensitively (originsFlow)
+	qwrap       map[*ssa.Function]*ssa.Call
 	curFacts  facts    // facts of the path currently examined by reachCut (read by target predicates)
 	noDescend bool     // switch the in-line exploration of helpers off (used by summaries that do their own lifting)
 }
@@ -363,6 +364,9 @@ func calleeName(c ssa.CallInstruction) string {
 	case *ssa.Builtin:
 		return "builtin " + v.Name()
 	case *ssa.Function:
+		if theProg != nil && theProg.queueWrapper(v) != nil {
+			return "scheduler.New" // a constructor helper that only wraps scheduler.New
+		}
 		return fname(v)
 	case *ssa.MakeClosure:
 		return fname(v.Fn.(*ssa.Function))
@@ -438,7 +442,7 @@ func eachInstr(fn *ssa.Function, f func(ssa.Instruction)) {
 					continue
 				}
 				if c, ok := in.(*ssa.Call); ok {
-					if h := theProg.calleeOf(c); h != nil && theProg.isPlainHelper(h) {
+					if h := theProg.calleeOf(c); h != nil && theProg.isPlainHelper(h) && theProg.queueWrapper(h) == nil {
 						if len(theProg.callers[h]) > 1 && len(h.Params) > 0 && !seen[h] {
 							// a helper with several call sites is read once per call, its
 							// parameters standing for what that call passes
@@ -812,4 +816,67 @@ func (p *Prog) homeOf(fn *ssa.Function) *ssa.Function {
 		return homes[0]
 	}
 	return fn
+}
+
+// queueWrapper: fn is a plain helper that does nothing but hand back a fresh scheduler.New(…)
+// (`func newQueue() scheduler.Scheduler { return scheduler.New(1, &scheduler.Options{…}) }`); the inner
+// call is returned. Calls of such a helper are read as scheduler.New calls (calleeName, newArgs) and the
+// helper's body is not expanded into its callers.
+func (p *Prog) queueWrapper(fn *ssa.Function) *ssa.Call {
+	if fn == nil || fn.Blocks == nil || fn.Pkg != p.RPC {
+		return nil
+	}
+	if p.qwrap == nil {
+		p.qwrap = map[*ssa.Function]*ssa.Call{}
+	}
+	if c, ok := p.qwrap[fn]; ok {
+		return c
+	}
+	p.qwrap[fn] = nil
+	if !p.isPlainHelper(fn) || len(fn.Blocks) != 1 {
+		return nil
+	}
+	var inner *ssa.Call
+	nCalls := 0
+	for _, in := range fn.Blocks[0].Instrs {
+		switch x := in.(type) {
+		case *ssa.Call:
+			nCalls++
+			if cal := x.Common().StaticCallee(); cal != nil && cal.String() == "github.com/hslam/scheduler.New" {
+				inner = x
+			}
+		case *ssa.Return:
+			if inner == nil || len(x.Results) != 1 || x.Results[0] != ssa.Value(inner) {
+				return nil
+			}
+		case *ssa.Go, *ssa.Defer:
+			return nil
+		}
+	}
+	if inner == nil || nCalls != 1 {
+		return nil
+	}
+	p.qwrap[fn] = inner
+	return inner
+}
+
+// newArgs returns the arguments (workers, options) of a scheduler.New call, looking into a constructor helper.
+func (p *Prog) newArgs(call *ssa.Call) []ssa.Value {
+	if cal := call.Common().StaticCallee(); cal != nil {
+		if inner := p.queueWrapper(cal); inner != nil {
+			out := make([]ssa.Value, len(inner.Call.Args))
+			for i, a := range inner.Call.Args {
+				out[i] = a
+				if prm, ok := a.(*ssa.Parameter); ok {
+					for j, q := range cal.Params {
+						if q == prm && j < len(call.Call.Args) {
+							out[i] = call.Call.Args[j]
+						}
+					}
+				}
+			}
+			return out
+		}
+	}
+	return call.Call.Args
 }
